@@ -23,6 +23,7 @@ fn real_parse(expr: &str) -> Out<Result<CronSchedule, bool>> {
 }
 
 /// The five sets as shown by the Debug rendering (None if the rendering has another shape).
+#[allow(dead_code)]
 fn debug_sets(s: &CronSchedule) -> Option<Sets> {
     let text = format!("{:?}", s);
     let mut out: Sets = Default::default();
@@ -155,18 +156,16 @@ fn case_expr(expr: &str, iterate: bool, acc: &mut Acc) {
         }
         (Verdict::Accept(sets), Out::Val(Ok(s))) => {
             acc.branch("mutant-accepted");
-            if let Some(ds) = debug_sets(s) {
-                if ds != *sets {
-                    acc.violation("CronSchedule::parse", "accepted-with-other-sets", case(), format!("{:?}", sets), format!("{:?}", ds));
-                    return;
+            // what the schedule matches is judged on behaviour only (the first minutes it yields from
+            // two pinned instants), never on how the parsed schedule is represented internally
+            for start in [unix_of(2023, 12, 31, 23, 58, 30), unix_of(2026, 2, 28, 23, 59, 30)] {
+                if !iterate && start != unix_of(2023, 12, 31, 23, 58, 30) {
+                    break;
                 }
-            }
-            if iterate {
-                let start = unix_of(2023, 12, 31, 23, 58, 30);
                 let mut after = (start + cal::DAYS_TO_1970 * 86_400).div_euclid(60);
                 if rc::next_after(sets, after).is_none() {
                     acc.branch("unsatisfiable-not-iterated");
-                    return;
+                    break;
                 }
                 pin_clock(start);
                 let mut it = s.clone();
